@@ -7,9 +7,11 @@ From Coq Require Import List String Bool Arith.
 Import ListNotations.
 Open Scope string_scope.
 
-(* a Python exception instance: class name, str(exc), and whether the class derives from Exception
-   (false: KeyboardInterrupt, SystemExit, GeneratorExit - BaseException only) *)
-Record exn := { e_name : string; e_msg : string; e_is_exception : bool }.
+(* a Python exception instance: class name, str(exc), whether the class derives from Exception
+   (false: KeyboardInterrupt, SystemExit, GeneratorExit - BaseException only), and whether it is one of the
+   stream errors fetch() converts: EOFError, http.client.HTTPException, OSError (TimeoutError,
+   ConnectionResetError, ...), zlib.error *)
+Record exn := { e_name : string; e_msg : string; e_is_exception : bool; e_is_io : bool }.
 
 Inductive pyerr :=
 | URLFetchingError (msg : string)
@@ -51,6 +53,14 @@ Definition setdefaults (url : string) (d : fdict) : fdict :=
 Section Fetch.
   Variable fetcher : string -> fret.
 
+  (* an error raised while the stream is in use (the body of the with block, file_obj present):
+     except URLFetchingError: raise / except (EOFError, HTTPException, OSError, zlib.error): URLFetchingError *)
+  Definition convert_stream_error {A : Type} (r : outcome A) : outcome A :=
+    match r with
+    | Exc (Raised e) => if e_is_io e then Exc (URLFetchingError (e_name e ++ ": " ++ e_msg e)) else r
+    | _ => r
+    end.
+
   (* with fetch(url_fetcher, url) as result: body(result) *)
   Definition fetch {A : Type} (url : string) (body : fdict -> outcome A * list event)
     : outcome A * list event :=
@@ -64,7 +74,7 @@ Section Fetch.
         let d' := setdefaults url d in
         let '(r, ev) := body d' in
         match d_file d' with
-        | Some f => (r, Called url :: ev ++ Closed (fo_id f) ::
+        | Some f => (convert_stream_error r, Called url :: ev ++ Closed (fo_id f) ::
                         (if fo_close_raises f then [CloseWarning url] else []))
         | None => (r, Called url :: ev)
         end
@@ -88,13 +98,13 @@ Section Fetch.
     match d_mime d with Some m => m | None => None end.
 
   (* which consumer: what it checks before reading and what its except clause catches *)
-  Inductive consumer := CImage | CLinkSheet | CImportSheet | CFontSrc | CAttachment.
+  Inductive consumer := CImage | CLinkSheet | CImportSheet | CFontSrc | CAttachment | CUseSvg.
 
   Definition checks_css_mime (c : consumer) : bool :=
     match c with CLinkSheet => true | _ => false end.
   Definition catches (c : consumer) (e : pyerr) : bool :=
     match c with
-    | CFontSrc => pyerr_is_exception e                        (* except Exception *)
+    | CFontSrc | CUseSvg => pyerr_is_exception e              (* except Exception *)
     | _ => match e with URLFetchingError _ => true | _ => false end
     end.
 
@@ -113,6 +123,7 @@ Section Fetch.
     | CLinkSheet | CImportSheet => "Failed to load stylesheet"
     | CFontSrc => "Failed to load font"
     | CAttachment => "Failed to load attachment"
+    | CUseSvg => "Failed to load SVG"
     end.
 
   (* the payload the consumer gets: Some bytes | None (the resource is treated as absent, logged) | escape *)
@@ -145,7 +156,7 @@ End Fetch.
    did: 0 = payload used, 1 = treated as absent, 2 = an exception escaped (with its class name);
    the events the recording fetcher saw; whether an ERROR/WARNING (DEBUG for fonts) record was emitted *)
 Definition consumer_of_nat (n : nat) : consumer :=
-  match n with 0 => CImage | 1 => CLinkSheet | 2 => CImportSheet | 3 => CFontSrc | _ => CAttachment end.
+  match n with 0 => CImage | 1 => CLinkSheet | 2 => CImportSheet | 3 => CFontSrc | 4 => CAttachment | _ => CUseSvg end.
 
 Definition event_eqb (a b : event) : bool :=
   match a, b with
